@@ -18,6 +18,19 @@ package app
 //@ field app.Process.procStateChan const
 //@ field pclog.ProcessLogBuffer.size const
 
+// ---------- C20: lock discipline (which lock protects which field) ----------
+//@ field app.ProjectRunner.runningProcesses guarded_by=runProcMutex
+//@ field app.ProjectRunner.doneProcesses guarded_by=doneProcMutex
+//@ field app.ProjectRunner.processStates guarded_by=statesMutex
+//@ field app.ProjectRunner.processLogs guarded_by=logsMutex
+//@ field app.ProjectRunner.exitCode guarded_by=exitCodeMutex
+//@ field app.ProjectRunner.exitCodeSet guarded_by=exitCodeMutex
+//@ field app.Process.done guarded_by=Mutex
+//@ field app.Process.started guarded_by=Mutex
+//@ field app.Process.startTime guarded_by=timeMutex
+//@ field app.Process.waitForStoppedFn guarded_by=mtxStopFn
+//@ field app.Process.waitForStoppedCtx guarded_by=mtxStopFn
+
 // ---------- lock discipline helpers ----------
 //@ define unlocked(p *Process) bool = !held(p.Mutex) && !held(p.confMtx) && !held(p.stateMtx) && !held(p.timeMutex) && !held(p.mtxStopFn) && !held(p.logBuffer.mx)
 
